@@ -1,6 +1,7 @@
 import Driver.Witness
 import Driver.Bastion
 import Driver.Conc
+import Driver.Feeder
 open Std
 namespace Drv
 
@@ -38,6 +39,7 @@ def handle (st : St) (n : Nat) (line : String) : Result := Id.run do
     | _, _, _ => return { st, out := [s!"BAD {n} TRUTH"] }
   | "U" :: _ => return handleU st n toks
   | "H" :: _ => return handleH st n toks
+  | "FD" :: _ => return handleFD st n toks
   | "LR" :: sid :: _ => return { st := { st with lreqs := st.lreqs.push (sid, toks) }, out := [] }
   | "LIN" :: sid :: _ =>
     let mine := st.lreqs.filter (fun p => p.1 == sid)
